@@ -96,3 +96,72 @@ func TestVerifC06FieldProducts(t *testing.T) {
 		vlib.NonTrivial(sub, "", []byte(op), x.Bytes(), y.Bytes())
 	})
 }
+
+// TestVerifC06FieldCanonical: the final reduction (Modp / ToBytes) on values that have two
+// representatives below 2^(8*Size): [0, 2^(8*Size)-p) and [p, 2^(8*Size)), native code under both
+// settings of hasBmi2Adx and the generic function.
+func TestVerifC06FieldCanonical(t *testing.T) {
+	defer vlib.Done()
+	const sub = "whitebox/fp25519.canonical"
+	pp := P()
+	p := vlib.FromLE(pp[:])
+	width := new(big.Int).Lsh(big.NewInt(1), uint(8*Size))
+	bound := new(big.Int).Sub(width, p)
+	vlib.Check(t, vlib.N(4000, 60000), func(t *rapid.T) {
+		// v: the canonical value; x = v + j*p, every representative that fits the element width
+		var v *big.Int
+		switch rapid.IntRange(0, 3).Draw(t, "k") {
+		case 0:
+			v = big.NewInt(int64(rapid.IntRange(0, 40).Draw(t, "small")))
+		case 1:
+			v = new(big.Int).Sub(bound, big.NewInt(int64(rapid.IntRange(-3, 3).Draw(t, "d"))))
+			v.Mod(v, p)
+		case 2:
+			b := make([]byte, Size)
+			vlib.FillRandom(t, b, "v")
+			v = vlib.FromLE(b)
+			v.Rsh(v, uint(rapid.IntRange(0, 8*Size-1).Draw(t, "sh")))
+			v.Mod(v, p)
+		default:
+			v = new(big.Int).Sub(p, big.NewInt(int64(rapid.IntRange(1, 40).Draw(t, "below"))))
+		}
+		x := new(big.Int).Set(v)
+		for j := rapid.IntRange(0, 2).Draw(t, "j"); j > 0; j-- {
+			if n := new(big.Int).Add(x, p); n.Cmp(width) < 0 {
+				x = n
+			}
+		}
+		var e Elt
+		copy(e[:], vlib.LE(x, Size))
+		want := vlib.LE(v, Size)
+		vlib.Eval(sub)
+		check := func(name string, got []byte) bool {
+			if string(got) != string(want) {
+				vlib.Report(t, "C06/whitebox/fp25519/"+name+"-not-canonical", fmt.Sprintf("x=%x got=%x want=%x", x, got, want))
+				return false
+			}
+			return true
+		}
+		g := e
+		modpGeneric(&g)
+		if !check("modpGeneric", g[:]) {
+			return
+		}
+		for _, bmi := range []bool{false, true} {
+			if bmi && !(cpu.X86.HasBMI2 && cpu.X86.HasADX) {
+				continue
+			}
+			m := e
+			out := make([]byte, Size)
+			tb := e
+			c06FpWith(bmi, func() {
+				Modp(&m)
+				_ = ToBytes(out, &tb)
+			})
+			if !check("Modp", m[:]) || !check("ToBytes", out) {
+				return
+			}
+		}
+		vlib.NonTrivial(sub, "", x.Bytes())
+	})
+}
